@@ -42,6 +42,9 @@ type Hooks struct {
 	// HangIsViolation: a run exceeding the watchdog twice is a violation of
 	// this property (C09); otherwise it is harness trouble.
 	HangIsViolation map[string]bool
+	// ShrinkMax caps the executions spent minimising one violation of a property
+	// whose runs are expensive (child processes).
+	ShrinkMax map[string]int
 	// Extra subcommands.
 	Extra func(cmd string, args []string) bool
 }
@@ -196,9 +199,11 @@ func cmdWorker(args []string) {
 			if v != nil && !st.VerdictOrderDependent {
 				d = tape.Mix(d, tape.HashString(v.Class))
 			}
+			var lg uint64
 			for k := range st.Logs {
-				d = tape.Mix(d, k)
+				lg += tape.SplitMix64(k) // commutative: map order must not matter
 			}
+			d = tape.Mix(d, lg)
 			fmt.Fprintf(out, "{\"t\":\"digest\",\"i\":%d,\"d\":\"%016x\"}\n", i, d)
 		}
 		return
@@ -652,7 +657,11 @@ func cmdRun(args []string) {
 		rf.ReplayCmd = fmt.Sprintf("%s --replay %s", *checkCmd, path)
 		if g.Tape != nil {
 			writeJSON(path, rf)
-			shr := runWorker([]string{"shrink", "-file", path, "-out", path + ".min"}, nil, 10*time.Minute)
+			sargs := []string{"shrink", "-file", path, "-out", path + ".min"}
+			if m := hooks.ShrinkMax[*propID]; m > 0 {
+				sargs = append(sargs, "-max", fmt.Sprint(m), "-budget", "60s")
+			}
+			shr := runWorker(sargs, nil, 10*time.Minute)
 			if b, err := os.ReadFile(path + ".min"); err == nil {
 				var m ReplayFile
 				if json.Unmarshal(b, &m) == nil && m.Tape != nil {
